@@ -6,8 +6,8 @@
    Lemire's multiply-and-reject, vita::random::between) returns lo <= v < hi for every
    engine state and every fuel -- the H_draws contract for integers is a theorem, not
    an assumption; so is the one for booleans (boolean(0)=false, boolean(1)=true) and the fact that the
-   canonical real is a finite double in [0,1), and lo <= between<double>(lo,hi) <= hi for intervals of finite
-   width.  NOT proved: the wide-interval branch of between<double> (hi - lo overflows; stays a checked contract).  The rejection loop is bounded by [fuel]; exhaustion is [None]/[AFail]
+   canonical real is a finite double in [0,1), and lo <= between<double>(lo,hi) <= hi on both branches: the whole
+   H_draws contract (integers, booleans, reals) is proved for every finite request.  The rejection loop is bounded by [fuel]; exhaustion is [None]/[AFail]
    (it cannot be proved impossible for an arbitrary generator).
    Nothing else lives in this file. *)
 From Coq Require Import NArith ZArith List Bool Reals.
@@ -53,15 +53,16 @@ Theorem C07_boolean_contract : forall p st, wf st ->
 Proof. exact boolean_contract. Qed.
 Print Assumptions C07_boolean_contract.
 
-(* vita::random::between<double>(lo, hi) = std::uniform_real_distribution: for finite lo < hi whose width hi - lo is
-   finite (the ordinary branch) the result is a finite double with lo <= v <= hi, for every 64-bit engine state.
-   (u * fl(hi - lo) rounded never exceeds the exact hi - lo: a midpoint argument on Flocq's pred/ulp.)
-   This is the H_draws contract for reals; the repaired wide-interval branch (hi - lo overflows) is NOT covered. *)
+(* vita::random::between<double>(lo, hi): for EVERY finite lo < hi the result is a finite double with lo <= v <= hi,
+   for every 64-bit engine state -- on the ordinary branch (std::uniform_real_distribution: u * fl(hi - lo) rounded
+   never exceeds the exact hi - lo, a midpoint argument on Flocq's pred/ulp) and on the repaired wide-interval branch
+   (hi - lo overflows: both ends are then >= 2^970 in magnitude, their halves are exact, the halved interval has a
+   finite width and doubling the sample stays inside).  This is the H_draws contract for reals, now a theorem. *)
 Theorem C07_between_real_in_interval : forall lo hi st, wf st ->
-  F64.is_finite lo = true -> F64.is_finite hi = true -> F64.ltb lo hi = true -> F64.is_finite (F64.sub hi lo) = true ->
+  F64.is_finite lo = true -> F64.is_finite hi = true -> F64.ltb lo hi = true ->
   F64.leb lo (fst (between_real lo hi st)) = true /\ F64.leb (fst (between_real lo hi st)) hi = true /\
   F64.is_finite (fst (between_real lo hi st)) = true.
-Proof. exact between_real_contract. Qed.
+Proof. exact between_real_contract_all. Qed.
 Print Assumptions C07_between_real_in_interval.
 
 (* a whole sequence of requests answered from a seed: every integer answer is in range *)
